@@ -60,6 +60,12 @@ use Reply::*;
 mod structs;
 pub(crate) use structs::*;
 
+#[cfg(matszpk_simple_irc_server_verif)]
+mod verif_hooks;
+#[cfg(matszpk_simple_irc_server_verif)]
+#[allow(unused_imports)]
+pub(crate) use verif_hooks::*;
+
 pub(crate) struct MainState {
     config: MainConfig,
     // key is user name
